@@ -39,8 +39,8 @@ CHECKS = {
         "design_ref": "DESIGN.md §7 C04",
     },
     "C05": {
-        "scenarios": [{"name": "sigmut"}],
-        "accept": ["sigmut:", "liveness:"],
+        "scenarios": [{"name": "sigmut"}, {"name": "dups"}],
+        "accept": ["sigmut:", "liveness:", "dups:"],
         "technique": "Lean: invalid entry is inert on arrival and on execution from holding, key type selected strictly above its activation, single input address, int64 bound. Tie: block with one validly signed transfer plus hundreds of mutants (bit flips, missing/duplicated/swapped signature pairs, other key, salt window) per key type and era, lock-step with the model, executions counted",
         "assumptions": [ORACLES, "signature soundness (a verdict bit implies the key holder signed) is assumed of fat103 / the crypto libraries"],
         "design_ref": "DESIGN.md §7 C05",
